@@ -131,6 +131,38 @@ theorem placeholders_in_order (pct : Bool) (row : Row) (w : Where) (t : Str) (ps
   obtain ⟨used, h1, h2⟩ := semW_consumes row w ps v rest hs
   exact ⟨used, h1, by rw [h2, render_count pct w t hr hf]⟩
 
+/-- An OR group with at least one member is always emitted as `(`…` OR `…`)` — also with a single
+member, also when a member is a static condition (the caller's own SQL, which may contain `OR`):
+inside the surrounding `AND` its text is one parenthesised unit. The empty group is `FALSE`; a
+static condition is the caller's text between two blanks. -/
+theorem groups_parenthesised (pct : Bool) (c : NCond) (cs : List NCond) (t : Str)
+    (h : render pct (toWhere (.or (c :: cs))).1 = .ok t) :
+    (∃ ts, renders pct (toWheres (c :: cs)).1 = .ok ts ∧ ts.length = cs.length + 1 ∧
+      t = "(".toList ++ joinSep " OR ".toList ts ++ ")".toList) ∧
+    render pct (toWhere (.or [])).1 = .ok "FALSE".toList ∧
+    (∀ txt, render pct (toWhere (.leaf (.raw txt))).1 = .ok (" ".toList ++ txt ++ " ".toList)) := by
+  have hro : Gen.C15.rawOpen = " ".toList := by decide
+  have hrc : Gen.C15.rawClose = " ".toList := by decide
+  refine ⟨?_, by simp [toWhere, render]; decide, fun txt => by simp [toWhere, leafWhere, render, hro, hrc]⟩
+  simp only [toWhere, render, bind, Except.bind] at h
+  cases hr : renders pct (toWheres (c :: cs)).1 with
+  | error e => simp [hr] at h
+  | ok ts =>
+    simp only [hr, pure, Except.pure, Except.ok.injEq] at h
+    refine ⟨ts, rfl, ?_, ?_⟩
+    · have hl := renders_length pct _ ts hr
+      have : ∀ ns : List NCond, (toWheres ns).1.length = ns.length := by
+        intro ns
+        induction ns with
+        | nil => simp [toWheres]
+        | cons n ns ih => simp [toWheres, ih]
+      rw [hl, this]; simp
+    · rw [← h]
+      have h1 : Gen.C15.orOpen = "(".toList := by decide
+      have h2 : Gen.C15.orClose = ")".toList := by decide
+      have h3 : Gen.C15.orSep = " OR ".toList := by decide
+      rw [h1, h2, h3]
+
 /-- Forgetting every value of a call (keeping field names, operations, `None`-ness, types and the
 lengths of lists) changes neither the outcome nor the AST nor one character of the text: only the
 bound values change, position by position. -/
@@ -384,6 +416,22 @@ example : (prepare false exStmtD
 
 example : (prepare false exStmtD { args := [], kwargs := [("_order_by".toList, .scalar (.int 5))] }).map (·.text)
     = .error (.py .typeError) := by
+  decide +kernel
+
+/-- a two-item condition / keyword filter whose value spells an operator is an equality with that
+text, bound as a value like any other -/
+example : (prepare false exStmt
+      { args := [some (.pair "a".toList (.scalar (.text "is null".toList))),
+                 some (.or [.pair "b".toList (.scalar (.text "NOT IN".toList))] [("c".toList, .scalar (.text "0".toList))])],
+        kwargs := [("c".toList, .scalar (.text "IS NOT NULL".toList))] }).map (fun p => (p.text, p.params)) =
+    .ok ("SELECT id FROM t WHERE a = ? AND (b = ? OR c = ?) AND c = ? ORDER BY id".toList,
+         [.text "is null".toList, .text "NOT IN".toList, .text "0".toList, .text "IS NOT NULL".toList]) := by
+  decide +kernel
+
+/-- a single static operand that contains OR stays inside the parentheses of its group -/
+example : (prepare false exStmt
+      { args := [some (.or [.raw "a = 7 OR id = 1".toList] [])], kwargs := [("b".toList, .scalar (.int 2))] }).map (·.text) =
+    .ok "SELECT id FROM t WHERE ( a = 7 OR id = 1 ) AND b = ? ORDER BY id".toList := by
   decide +kernel
 
 end examples
